@@ -277,13 +277,11 @@ func cmdCheck(args []string) int {
 		defer os.RemoveAll(work)
 	}
 	c := &checker{repo: *repo, verif: *verif, work: work, tier: *tier, seed: seed, extra: parseOverlay(*overlay)}
-	genFile, err := genModel(*repo, work, c.extra)
-	if err != nil {
+	if err := genAll(*repo, work, c.extra); err != nil {
 		fmt.Fprintln(os.Stderr, "generator:", err)
 		fmt.Printf("INCONCLUSIVE property=%s reason=generator-failed\n", prop)
 		return 2
 	}
-	c.extra[filepath.Join(*repo, "model", "zz_verif_gen_model.go")] = genFile
 	var ovParts []string
 	for k, v := range c.extra {
 		ovParts = append(ovParts, k+"="+v)
@@ -825,9 +823,7 @@ func cmdReplay(args []string) int {
 	work, _ := os.MkdirTemp(filepath.Join(*verif, ".work"), "replay-")
 	defer os.RemoveAll(work)
 	c := &checker{repo: *repo, verif: *verif, work: work, extra: map[string]string{}}
-	if gf, err := genModel(*repo, work, c.extra); err == nil {
-		c.extra[filepath.Join(*repo, "model", "zz_verif_gen_model.go")] = gf
-	}
+	_ = genAll(*repo, work, c.extra)
 	bin, err := c.buildReplayBinary(pkg, rec.Sched)
 	if err != nil {
 		fmt.Fprintln(os.Stderr, err)
